@@ -656,6 +656,11 @@ func writeTypeConversion(w *formatting.IndentedWriter, typeChange dsl.TypeChange
 			w.Indented(func() {
 				fmt.Fprintf(w, "%s = %s.value();\n", targetName, sourceName)
 			})
+			fmt.Fprintf(w, "} else {\n")
+			w.Indented(func() {
+				// null becomes the zero value, also when the target is a variable that the caller reuses or did not initialize
+				fmt.Fprintf(w, "%s = %s{};\n", targetName, common.TypeSyntax(tc.OldType()))
+			})
 			fmt.Fprintf(w, "}\n")
 		} else {
 			fmt.Fprintf(w, "%s = %s;\n", targetName, sourceName)
